@@ -130,7 +130,7 @@ def catalogue_c08(tier):
     cs = [qcase('1client-3posts', [[P(11), P(12), P(13)]]),
           qcase('2clients', [[P(11), P(12)], [P(21), P(22)]]),
           qcase('client-vs-abort', [[P(11), P(12), P(13)], [AB]]),
-          qcase('post-abort-post', [[P(11), AB, P(12)]]),
+          qcase('post-abort-post', [[P(11), AB, P(13)]]),
           qcase('abort-then-post', [[AB], [P(21)]]),
           qcase('abort-inside-task', [[P(11), P(12)], [P(21)]], aborting=[11]),
           qcase('post-inside-task', [[P(11), P(12)]], posting=[11]),
@@ -347,6 +347,97 @@ def model_check(work, module, cfgtext, tag, workers=8, timeout_s=600, expect=Non
     return st
 
 
+def queue_drift(work, harness, cases, seed):
+    """Lock-level conformance of the real scheduler queue with the L1 model SchedQueue (drift, never an alarm):
+    a sample of schedules is re-run with the facade's lock log on; each lock / condvar operation is mapped to its role by
+    the source line at the lock's creation site and must be exactly one SchedQueue action of that thread."""
+    out = {'cases': 0, 'traces': 0, 'lines': 0, 'drift': []}
+    todo = [c for c in cases if c.get('kind') == 'queue' and not c.get('posting')]
+    path = work + '/qd.cases.json'
+    with open(path, 'w') as f:
+        json.dump(todo, f)
+    r = subprocess.run([harness, 'conc', '--cases', path, '--mode', 'random', '--max-runs', '60', '--seed', str(seed), '--log-locks', '1', '--out', work + '/qd.ndjson'], capture_output=True, text=True)
+    if r.returncode != 0:
+        raise ToolError('harness conc --log-locks failed: ' + r.stderr[-1500:])
+    roles = {}
+
+    def role(site):
+        if site not in roles:
+            fn, ln = site.rsplit(':', 1)
+            fn = 'src/' + fn.split('/src/', 1)[1] if '/src/' in fn else fn       # the site names a file of the instrumented scratch copy
+            try:
+                line = open(os.environ.get('ARX_REPO', '/repo') + '/' + fn).read().splitlines()[int(ln) - 1]
+            except Exception:
+                line = ''
+            roles[site] = 'queue' if re.search(r'queue\s*:\s*Mutex::new', line) else 'abort' if re.search(r'abort\s*:\s*RwLock::new', line) else 'other'
+        return roles[site]
+
+    byname = {c['name']: c for c in todo}
+    per_case = {}
+    cur = None
+    for line in open(work + '/qd.ndjson'):
+        v = json.loads(line)
+        if v['ev'] == 'reset':
+            cur = {'name': v['name'], 'ev': []}
+            per_case.setdefault(v['name'], []).append(cur)
+        elif v['ev'] != 'quiesce':
+            cur['ev'].append(v)
+    gen = work + '/gen'
+    for name, runs in per_case.items():
+        c = byname[name]
+        lines = []
+        for run in runs:
+            evs = run['ev']
+            hth = [e['t'] for e in evs if e['ev'] == 'hthread']
+            lockrole = {}
+            # client threads in the order the harness spawned them (= the order of the case's thread list)
+            spawned = [e['v'] for e in evs if e['ev'] == 'spawn' and e['t'] == 0]
+            tmap = {t: i + 1 for i, t in enumerate([t for t in spawned if t in hth])}
+            worker = next((e['v'] for e in evs if e['ev'] == 'spawn' and e['t'] == 0 and e['v'] not in hth), None)
+            if worker is None:
+                continue
+            tmap[worker] = 0
+            lines.append(json.dumps({'ev': 'reset', 't': 0, 'task': 0, 'scripts': [[s['op'] for s in th] for th in c['threads']]}))
+            for e in evs:
+                if e['t'] not in tmap:
+                    continue
+                t = tmap[e['t']]
+                if e['ev'] == 'lk':
+                    if e['op'] in ('acq', 'rel'):
+                        if e['op'] == 'acq':
+                            lockrole[e['lock']] = role(e['site'])
+                        ro = lockrole.get(e['lock'], 'other')
+                        if ro == 'queue':
+                            lines.append(json.dumps({'ev': e['op'] + '_queue', 't': t, 'task': 0}))
+                        elif ro == 'abort':
+                            lines.append(json.dumps({'ev': e['op'] + e['m'] + '_abort', 't': t, 'task': 0}))
+                    elif e['op'] in ('cvwait', 'cvwake', 'notify'):
+                        lines.append(json.dumps({'ev': e['op'], 't': t, 'task': 0}))
+                elif e['ev'] in ('postcall', 'postret', 'abortcall', 'abortret', 'start', 'end'):
+                    lines.append(json.dumps({'ev': e['ev'], 't': t, 'task': e.get('task', 0)}))
+            out['traces'] += 1
+        if not lines:
+            continue
+        out['cases'] += 1
+        out['lines'] += len(lines)
+        tag = 'qd_' + re.sub(r'[^a-z0-9]', '_', name)
+        tpath = '%s/%s.ndjson' % (work, tag)
+        with open(tpath, 'w') as f:
+            f.write('\n'.join(lines) + '\n')
+        cfg = '%s/%s.cfg' % (gen, tag)
+        with open(cfg, 'w') as f:
+            f.write('SPECIFICATION TSpec\nCONSTANTS NClients = %d\n MaxOps = %d\n AbortingTasks = {%s}\n SpuriousWake = FALSE\nPOSTCONDITION Accepted\nCHECK_DEADLOCK FALSE\n'
+                    % (max(1, len(c['threads'])), max(len(th) for th in c['threads']), ', '.join(str(x) for x in c.get('aborting', []))))
+        env = dict(os.environ)
+        env['TRACE'] = tpath
+        env['JAVA_TOOL_OPTIONS'] = '-Xss1g -Xmx3g'
+        rr = subprocess.run(['timeout', '600'] + tlc_cmd(1, '%s/md-%s' % (work, tag), cfg, 'SchedQueueTrace.tla'), cwd=gen, capture_output=True, text=True, env=env)
+        if 'Model checking completed. No error has been found.' not in rr.stdout:
+            m = re.search(r'DRIFT: [^\n]*\n?[^\n]*', rr.stdout)
+            out['drift'].append({'case': name, 'detail': (m.group(0) if m else rr.stdout[-600:])[:600]})
+    return out
+
+
 def load_known():
     p = V + '/known_findings.json'
     return [k for k in json.load(open(p)).get('findings', []) if 'match' in k] if os.path.exists(p) else []
@@ -429,6 +520,12 @@ def run_conc_check(prop, tier, flags, seed, design_ref, models=(), extra_cases=N
         for m in mc:
             if m['violated'] and not m['expected_violation']:
                 out_lines.append('MODEL-FINDING property=%s the design model %s/%s violates %s (not an alarm by itself: alarms come only from executions of the real code)' % (prop, m['module'], m['config'], m['violated']))
+        qd = None
+        if prop == 'C08':
+            qd = queue_drift(work, harness, cases, seed)
+            if qd['drift']:
+                out_lines.append('MODEL-DRIFT property=C08 the lock-level log of the real scheduler queue is no longer a behaviour of the L1 model SchedQueue (%d of %d cases; first: %s)'
+                                 % (len(qd['drift']), qd['cases'], qd['drift'][0]['detail'][:300].replace('\n', ' ')))
         runs = sum(c['runs'] for c in per_case) + sum(c['runs'] for c in pc2)
         distinct = sum(c['distinct_traces'] for c in per_case)
         nontriv = sum(1 for vs, ts, ss in allv for tid, v in vs.items() if v['events'] >= 4)
@@ -445,7 +542,7 @@ def run_conc_check(prop, tier, flags, seed, design_ref, models=(), extra_cases=N
                 'rule': 'each case of the catalogue is executed on the real crate under every schedule with at most %d preemptions (DFS over lock-operation schedule points, '
                         'complete within the bound unless capped) plus seeded random schedules; traces are de-duplicated by visible content; non-trivial = at least 4 visible events' % bound,
                 'exhaustive': all(c['exhausted_within_bound'] for c in per_case),
-                'design_models_checked_by_tlc': mc, 'cases': per_case, 'random_cases': pc2, 'monitors': flags,
+                'design_models_checked_by_tlc': mc, 'lock_level_conformance_with_L1': qd, 'cases': per_case, 'random_cases': pc2, 'monitors': flags,
                 'l2_rejections_known': {k: c[0] for k, c in kf_hits.items()}, 'l2_rejections_new': len(violations),
             },
             'assumptions': ['schedule points are the lock / condvar / spawn / sleep operations of the facade: the crate has no atomics and no unsafe code, so these are all inter-thread interactions',
